@@ -157,3 +157,40 @@ theorem Reach.induction {cfg : Cfg} {P : State → Prop} (h0 : P Kopf.C20.init)
   exact key ls _ s (Reach.init cfg) h0 hls
 
 end Kopf.C20
+
+namespace Kopf.C20
+
+theorem kind_orchestrator_iff (r : Root) : r.kind = .orchestrator ↔ r = .orchestrator := by
+  cases r <;> simp [Root.kind]
+theorem kind_killer_iff (r : Root) : r.kind = .killer ↔ r = .daemonKiller := by
+  cases r <;> simp [Root.kind]
+theorem kind_flagChecker_iff (r : Root) : r.kind = .flagChecker ↔ r = .stopFlag := by
+  cases r <;> simp [Root.kind]
+theorem kind_ultimate_iff (r : Root) : r.kind = .ultimate ↔ r = .ultimate := by
+  cases r <;> simp [Root.kind]
+theorem kind_startupCleanup_iff (r : Root) : r.kind = .startupCleanup ↔ r = .startupCleanup := by
+  cases r <;> simp [Root.kind]
+theorem guarded_iff (r : Root) :
+    r.guarded = true ↔ r ≠ .stopFlag ∧ r ≠ .ultimate ∧ r ≠ .startupCleanup := by
+  cases r <;> simp [Root.guarded, Root.kind]
+
+end Kopf.C20
+
+namespace Kopf.C20
+
+/-- in its `finally:` -/
+def TS.isStopping : TS → Bool
+  | .stopping _ _ => true
+  | _ => false
+
+@[simp] theorem TS.isStopping_stopping (f : Bool) (d : Option Nat) : TS.isStopping (.stopping f d) = true := rfl
+@[simp] theorem TS.isStopping_running : TS.isStopping .running = false := rfl
+@[simp] theorem TS.isStopping_waitingFlag : TS.isStopping .waitingFlag = false := rfl
+@[simp] theorem TS.isStopping_absent : TS.isStopping .absent = false := rfl
+@[simp] theorem TS.isStopping_failed : TS.isStopping .failed = false := rfl
+@[simp] theorem TS.isStopping_cancelled : TS.isStopping .cancelled = false := rfl
+@[simp] theorem TS.isStopping_done : TS.isStopping .done = false := rfl
+theorem TS.isStopping_iff (t : TS) : t.isStopping = true ↔ ∃ f dl, t = .stopping f dl := by
+  cases t <;> simp
+
+end Kopf.C20
